@@ -331,6 +331,9 @@ def apply(m, mut):
             lo, hi = hi, lo
         elif kind == "grow":
             hi = hi + dx
+        elif kind in ("lo_nan", "hi_nan", "lo_inf"):
+            m.header[ln] = {"lo_nan": "nan %.17g" % hi, "hi_nan": "%.17g nan" % lo, "lo_inf": "-inf %.17g" % hi}[kind]
+            return True
         elif kind in ("lo-", "lo+", "hi-", "hi+"):
             # a bound off by 0.4 cell, downwards or upwards (a fraction of a cell, but well beyond any rounding)
             sh = (-0.4 if kind[2] == "-" else 0.4) * dx
@@ -425,7 +428,7 @@ def singles(model, coords=False, textual=False):
             out.append(["fod", lv, b, "drop_token", None])
             if coords:
                 for d in range(nd):
-                    for kind in ("move", "swap", "grow", "lo-", "lo+", "hi-", "hi+"):
+                    for kind in ("move", "swap", "grow", "lo-", "lo+", "hi-", "hi+", "lo_nan", "hi_nan", "lo_inf"):
                         out.append(["bound", lv, b, d, kind])
         if textual:
             out.append(["ws", "cellh_trailing", lv])
@@ -583,6 +586,6 @@ def ref_bad(path, limit=None, coords=False):
                     dx = dxs[lv][d]
                     elo = geo_lo[d] + index[b][0][d] * dx
                     ehi = geo_lo[d] + (index[b][1][d] + 1) * dx
-                    if abs(phys[b][d][0] - elo) > 0.25 * dx or abs(phys[b][d][1] - ehi) > 0.25 * dx:
+                    if not (abs(phys[b][d][0] - elo) <= 0.25 * dx and abs(phys[b][d][1] - ehi) <= 0.25 * dx):      # (NaN contradicts)
                         return "level %d box %d dim %d: bounds %r contradict index range" % (lv, b, d, phys[b][d])
     return None
